@@ -2,6 +2,21 @@ use io_uring::{opcode, types::Fd};
 
 use crate::{IourOpCode as OpCode, OpEntry, sys::op::*};
 
+/// Offset of a positional operation as handed to io_uring.
+///
+/// io_uring takes an offset of `-1` (`u64::MAX`) as "use and advance the
+/// current file position", while `pread`/`pwrite` (and the polling driver)
+/// fail with `EINVAL` for any offset that is negative as `off_t`. Map it to
+/// another negative offset, which the kernel rejects with `EINVAL`, so that
+/// a positional operation never falls back to the file cursor.
+fn positional_offset(offset: u64) -> u64 {
+    if offset == u64::MAX {
+        u64::MAX - 1
+    } else {
+        offset
+    }
+}
+
 unsafe impl<T: IoVectoredBufMut, S: AsFd> OpCode for ReadVectoredAt<T, S> {
     type Control = VectoredControl;
 
@@ -15,7 +30,7 @@ unsafe impl<T: IoVectoredBufMut, S: AsFd> OpCode for ReadVectoredAt<T, S> {
             control.slices.as_ptr() as _,
             control.slices.len().try_into().unwrap_or(u32::MAX),
         )
-        .offset(self.offset)
+        .offset(positional_offset(self.offset))
         .build()
         .into()
     }
@@ -31,7 +46,7 @@ unsafe impl<T: IoBuf, S: AsFd> OpCode for WriteAt<T, S> {
             slice.as_ptr(),
             slice.len().try_into().unwrap_or(u32::MAX),
         )
-        .offset(self.offset)
+        .offset(positional_offset(self.offset))
         .build()
         .into()
     }
@@ -50,7 +65,7 @@ unsafe impl<T: IoVectoredBuf, S: AsFd> OpCode for WriteVectoredAt<T, S> {
             control.slices.as_ptr() as _,
             control.slices.len().try_into().unwrap_or(u32::MAX),
         )
-        .offset(self.offset)
+        .offset(positional_offset(self.offset))
         .build()
         .into()
     }
@@ -83,7 +98,7 @@ unsafe impl<T: IoBufMut, S: AsFd> OpCode for ReadAt<T, S> {
             slice.ptr() as _,
             slice.len().try_into().unwrap_or(u32::MAX),
         )
-        .offset(self.offset)
+        .offset(positional_offset(self.offset))
         .build()
         .into()
     }
